@@ -53,6 +53,7 @@ def build():
 
 
 def lc3v(args, out, seed, tier, timeout=3600, env_extra=None):
+    # args[0] is the mode ("emit" or "replay"), args[1] the domain
     """Run the harness; returns number of records written to `out`."""
     env = dict(os.environ, VERIF_SEED=str(seed), VERIF_TIER=tier)
     if env_extra:
@@ -433,6 +434,30 @@ class Run:
                           "wall_s": round(time.time() - t0, 2)})
         return r, path, n, rejected
 
+    def rp_leg(self, name, mc_spec, mc_cfg, domain, ops_file, verdict, workers=8, timeout=3000):
+        """RP leg: TLC enumerates every behaviour of a bounded model and checks the property on it (MC);
+        each maximal behaviour it prints (<<"HIST", <<...>>>>) is replayed by the harness on the real
+        crate, and the recorded outcomes are validated by TLC against the same operators (TV)."""
+        t0 = time.time()
+        ops = os.path.join(SPEC, ops_file)
+        r = self.mc_leg(name + "_mc", mc_spec, mc_cfg, env={"OPS": ops}, workers=workers, timeout=timeout)
+        hist = os.path.join(self.work, name + ".hist")
+        nh = 0
+        with open(hist, "w") as f:
+            for ln in r.prints:
+                m = re.match(r'^<<"HIST", <<(.*)>>>>\s*$', ln)
+                if m:
+                    f.write("[" + m.group(1) + "]\n")
+                    nh += 1
+        if nh == 0:
+            raise ToolError("leg %s: TLC printed no behaviour" % name)
+        out = os.path.join(self.work, name + ".ndjson")
+        n = lc3v(["replay", domain, "hist=" + hist, "ops=" + ops], out, self.seed, self.tier)
+        res = self.trace_leg(name, ["replay", domain], verdict=verdict, path=out, workers=workers)
+        self.legs[-1].update({"kind": "RP (TLC-enumerated behaviours replayed on the implementation, then TV)",
+                              "behaviours": nh, "wall_s": round(time.time() - t0, 2)})
+        return res
+
     def mc_leg(self, name, spec, cfg, env=None, workers=8, timeout=1800, **kw):
         """MC leg: model-check the specification itself."""
         t0 = time.time()
@@ -661,6 +686,8 @@ def c12(run):
 
 @check("C32")
 def c32(run):
+    run.rp_leg("rp_devices", "MC_Devices", "MC_Devices4.cfg" if run.tier == "thorough" else "MC_Devices.cfg", "devices",
+               "MC_Devices_ops.ndjson", verdict=CONF + ["regvals"], workers=16)
     run.trace_leg("devices", ["machine", "kind=devices"], verdict=CONF + ["regvals"])
     return run.finish(
         rule="random histories over add_device (valid, occupied, non-I/O and repeated ports), remove_device (incl. fixed "
@@ -1111,6 +1138,8 @@ def c31(run):
     r, path, n, rej = run.trace_leg("repro", ["machine", "kind=repro"], spec="TV_Pairs", cfg="TV_Pairs.cfg",
                                     verdict=PAIRV, expect_all=False)
     run.trace_leg("repro_conf", ["machine", "kind=repro"], verdict=["newok", "panic"], path=path)
+    # seeded timers driven directly (exact ranges widened later, range notations, toggles): same seed, same sequence
+    run.trace_leg("timer_seed", ["timer"], spec="TV_Pairs", cfg="TV_Pairs.cfg", verdict=PAIRV, expect_all=False)
     return run.finish(
         rule="two independent real runs per configuration (Known / Seeded strategy, seeded timers, keyboard input, "
              "harness interrupts): TLC requires the two event sequences to be identical field by field (header with "
